@@ -47,7 +47,22 @@ W_SHADOW = [["register", 0, _cls(1, 101, 1000, [10], [], [_opt(10, ["i", 1])])],
             ["set_config", 0, 0, [[10, ["i", 2]]]],
             ["key_for", 0, 0, 10],
             ["get", 0, 0, 10]]
-WITNESSES = {"D4-class-content": W_D4, "config-key-shadowed-by-data-type": W_SHADOW}
+# depends_on is not part of the lineage: a same-named, same-version class whose dependencies change only within
+# data types that are already in its lineage keeps the storage key (Coq: Proof/LineageFresh.v W_DEPS + the get)
+W_DEPS = [["register", 0, _cls(1, 101, 1000, [10], [], [])],
+          ["register", 0, _cls(2, 102, 1000, [11], [10], [])],
+          ["register", 0, _cls(3, 103, 1000, [12], [11], [])],
+          ["get", 0, 0, 12],
+          ["register", 0, _cls(4, 103, 1000, [12], [11, 10], [])],
+          ["key_for", 0, 0, 12],
+          ["get", 0, 0, 12]]
+WITNESSES = {"D4-class-content": W_D4, "config-key-shadowed-by-data-type": W_SHADOW,
+             "depends_on-not-in-lineage": W_DEPS}
+WITNESS_UNIT = {"D4-class-content": "cache_transparent", "config-key-shadowed-by-data-type": "cache_transparent",
+                "depends_on-not-in-lineage": "get_equals_fresh"}
+WITNESS_COQ = {"D4-class-content": "Props/C02.v: C02_cache_transparent_refuted",
+               "config-key-shadowed-by-data-type": "Props/C02.v: C02_cache_transparent_shadow_refuted",
+               "depends_on-not-in-lineage": "Props/C02.v: C02_get_equals_fresh_refuted"}
 
 
 # ------------------------------------------------------------------------------------------
@@ -133,8 +148,14 @@ def run_history(ops, fx, workdir, fresh="all"):
                 stats["fresh_checks"] += 1
                 if r["k"] == "D" and fr.get("rows") != r["rows"]:
                     stats["stale"] += 1
-                    prop.append({"step": idx, "kind": "stale_rows", "what": "get_array returns %s, a brand-new context "
-                                 "with the same settings on an empty directory computes %s" % (r["rows"], fr)})
+                    try:
+                        same_key = rr.ctxs[c].key_for(str(op[2]), L.name(op[3])).lineage_hash == fr.get("hash")
+                    except Exception:  # noqa
+                        same_key = False
+                    prop.append({"step": idx, "kind": "stale_rows", "same_key": same_key,
+                                 "what": "get_array returns %s, a brand-new context "
+                                 "with the same settings on an empty directory computes %s%s"
+                                 % (r["rows"], fr, " (the storage key is the same)" if same_key else "")})
                 elif r["k"] == "E" and "rows" in fr:
                     prop.append({"step": idx, "kind": "stale_error", "what": "get_array raises %s (%s), a brand-new "
                                  "context computes rows" % (r["err"], r.get("msg"))})
@@ -258,6 +279,19 @@ def has_d4_op(ops, upto):
     return False
 
 
+def has_deps_conflict(ops, upto):
+    """two classes registered before step `upto` (in any context: the directory is shared) with the same class
+    name and version and a common output but different depends_on — the class of inputs of the finding
+    'depends_on is not part of the lineage'"""
+    regs = [op[2] for op in ops[:upto + 1] if op[0] == "register"]
+    for i, a in enumerate(regs):
+        for b in regs[i + 1:]:
+            if a["name"] == b["name"] and a["ver"] == b["ver"] and set(a["provides"]) & set(b["provides"]) \
+                    and list(a["depends"]) != list(b["depends"]):
+                return True
+    return False
+
+
 def has_shadow(ops):
     dts = {p for op in ops if op[0] == "register" for p in op[2]["provides"]}
     for op in ops:
@@ -297,7 +331,7 @@ def shrink(ops, fx, pred):
 def unit_histories(ctx, mode):
     fx = 1 if mode == "fixed" else 0
     # C02 uses no generated source constants: only drift of its own anchors escalates the budget
-    n = 4000 if ctx.thorough else (200 if not ctx.drift else 400)
+    n = 3500 if ctx.thorough else (200 if not ctx.drift else 400)
     if os.environ.get("C02_NHIST"):        # debugging aid (bug-detection trials on a loaded machine)
         n = int(os.environ["C02_NHIST"])
     fresh = "all"
@@ -311,7 +345,7 @@ def unit_histories(ctx, mode):
             "multi_output": 0, "contexts>1": 0, "err_ops": 0, "ambiguous_fuzzy_loads": 0, "fresh_context_checks": 0,
             "stale_explained_by_known_finding": 0, "ndt_%d" % 2: 0}
     nontriv = set()
-    explained = {"D4-class-content": 0, "config-key-shadowed-by-data-type": 0}
+    explained = {"D4-class-content": 0, "config-key-shadowed-by-data-type": 0, "depends_on-not-in-lineage": 0}
     reported = 0
     seen_reports = set()
     for res in results:
@@ -348,7 +382,9 @@ def unit_histories(ctx, mode):
             if pf["kind"] == "fuzzy_reject_tuple" and getattr(ctx, "fuzzy_tuple_known", False):
                 dist["fuzzy_rejects_explained_by_tuple_finding"] = dist.get("fuzzy_rejects_explained_by_tuple_finding", 0) + 1
                 continue
-            if pf["kind"].startswith("stale"):
+            if pf["kind"] == "stale_rows" and pf.get("same_key") and has_deps_conflict(res["ops"], pf["step"]):
+                cause = "depends_on-not-in-lineage"
+            elif pf["kind"].startswith("stale"):
                 if has_d4_op(res["ops"], pf["step"]):
                     cause = "D4-class-content"
                 elif has_shadow(res["ops"]):
@@ -392,11 +428,10 @@ def unit_witnesses(ctx, mode):
         stale = [p for p in res["prop"] if p["kind"].startswith("stale")]
         ctx.witness_fails[wname] = bool(stale)
         if stale:
-            ctx.violation("cache_transparent", "%s: %s" % (wname, stale[0]["what"]),
-                          {"input": {"witness": wname, "history": ops}, "failure": stale[0],
-                           "coq": "Props/C02.v: C02_cache_transparent_refuted / C02_cache_transparent_shadow_refuted"})
+            ctx.violation(WITNESS_UNIT[wname], "%s: %s" % (wname, stale[0]["what"]),
+                          {"input": {"witness": wname, "history": ops}, "failure": stale[0], "coq": WITNESS_COQ[wname]})
         if res["dis"]:
-            ctx.violation("cache_transparent", "model (%s) and implementation disagree on witness %s: %s"
+            ctx.violation(WITNESS_UNIT[wname], "model (%s) and implementation disagree on witness %s: %s"
                           % (mode, wname, res["dis"][0]["what"]),
                           {"input": "corr:C02/witness/" + wname, "case": ops, "dis": res["dis"][0]}, no_failing_input=True)
     ctx.count("witnesses", n, n, {"stale_on_impl": sum(ctx.witness_fails.values())})
